@@ -130,7 +130,7 @@ fn expectation(name: &str, st: BankOperationalState) -> Expect {
     }
 }
 
-pub fn run(_tier: Tier) -> Outcome {
+pub fn run(tier: Tier) -> Outcome {
     let e = golden::build_env();
     let mut gs = golden::goldens();
     gs.extend(extra_goldens());
@@ -191,6 +191,46 @@ pub fn run(_tier: Tier) -> Outcome {
             }
         }
     }
+    // (A2) instructions with two banks: every pair of states (incl. Operational) on the two at once
+    for g in &gs {
+        if g.banks.len() < 2 {
+            continue;
+        }
+        let s0 = (g.prep)(&e);
+        let sg = golden::role_key(&e, g.role);
+        {
+            let mut t = s0.clone();
+            if !process_tx(&mut t, &(g.make)(&e, &s0, sg)).ok() {
+                continue;
+            }
+        }
+        use BankOperationalState::*;
+        let all = [Operational, Paused, ReduceOnly, KilledByBankruptcy];
+        for sa in all {
+            for sb in all {
+                if sa == Operational || sb == Operational {
+                    continue; // singles are (A)
+                }
+                let mut s1 = s0.clone();
+                set_state(&mut s1, &e, g.banks[0], sa);
+                set_state(&mut s1, &e, g.banks[1], sb);
+                let tx = (g.make)(&e, &s1, sg);
+                let mut t = s1.clone();
+                let r = process_tx(&mut t, &tx);
+                cells += 1;
+                let must_fail = expectation(g.name, sa) == Expect::MustFail || expectation(g.name, sb) == Expect::MustFail;
+                *classes.entry(format!("bank_state_pair:{}:{}", if must_fail { "must_fail" } else { "unspecified" }, if r.ok() { "ok" } else { "refused" })).or_insert(0) += 1;
+                if must_fail && r.ok() {
+                    o.found.push(Found {
+                        clause: "C14.bank_state_refuses".into(),
+                        sig: format!("{}:pair:{:?}+{:?}", g.name, sa, sb),
+                        detail: format!("{} succeeded although its banks are {:?} and {:?}", g.name, sa, sb),
+                        replay: json!({"model": "C14A2", "golden": g.name, "states": [format!("{:?}", sa), format!("{:?}", sb)]}),
+                    });
+                }
+            }
+        }
+    }
     // reduce-only collateral: worthless for new borrowing, still counted against liquidation
     {
         let mut s = e.s.clone();
@@ -228,26 +268,59 @@ pub fn run(_tier: Tier) -> Outcome {
         if g.name.starts_with("panic_") {
             continue;
         }
-        let mut paused = s0.clone();
-        if !process_tx(&mut paused, &Tx::one(ix::panic_pause(fa), &[fa])).ok() {
-            continue;
+        // scenario = steps from T (the first pause) + the interval [from, until) in which the pause is in force
+        // for the group + probe offsets from T
+        #[derive(Clone, Copy)]
+        enum Op {
+            Pause,
+            Unpause,
+            UnpauseAnyone,
+            Propagate,
+            Wait(i64),
         }
-        if !process_tx(&mut paused, &Tx::one(ix::propagate_fee_state(e.w.group), &[act::stranger()])).ok() {
-            continue;
+        use Op::*;
+        let deep = tier == Tier::Thorough;
+        let single_probes: Vec<i64> = if deep { vec![1, 2, 900, 1798, 1799, 1800, 1801, 1802, 3600, 86_400] } else { vec![1, 1799, 1800, 1801] };
+        let ext_probes: Vec<i64> = if deep { vec![601, 602, 1799, 1800, 1801, 2399, 2400, 2401, 3598, 3599, 3600, 3601, 7200] } else { vec![601, 1800, 2400, 3599, 3600, 3601] };
+        let second_probes: Vec<i64> = if deep { vec![1801, 1802, 2700, 3598, 3599, 3600, 3601, 5400] } else { vec![1801, 3599, 3600, 3601] };
+        let defs: Vec<(&str, Vec<Op>, i64, i64, Vec<i64>)> = vec![
+            ("single", vec![Pause, Propagate], 0, 1800, single_probes),
+            // paused at T, extended at T + 600 (in force until T + 3600), propagated then
+            ("extended", vec![Pause, Wait(600), Pause, Propagate], 0, 3600, ext_probes),
+            // lifted by the admin and propagated: never in force afterwards
+            ("lifted", vec![Pause, Propagate, Wait(100), Unpause, Propagate], 0, 0, if deep { vec![101, 102, 900, 1799, 1800] } else { vec![101, 900] }),
+            // a second pause right after the first ran out, propagated: in force for another 30 minutes
+            ("second", vec![Pause, Propagate, Wait(1800), Pause, Propagate], 1800, 3600, second_probes),
+            // ran out, then cleared by anyone and propagated
+            ("cleared_by_anyone", vec![Pause, Propagate, Wait(1800), UnpauseAnyone, Propagate], 0, 0, if deep { vec![1801, 1802, 2700, 3600] } else { vec![1801, 2700] }),
+        ];
+        let mut built: Vec<(&str, Store, i64, i64, i64, Vec<i64>)> = vec![];
+        for (name, ops, from, until, probes) in defs {
+            let mut st = s0.clone();
+            let mut elapsed = 0i64;
+            let mut ok = true;
+            for op in ops {
+                ok &= match op {
+                    Pause => process_tx(&mut st, &Tx::one(ix::panic_pause(fa), &[fa])).ok(),
+                    Unpause => process_tx(&mut st, &Tx::one(ix::panic_unpause(fa), &[fa])).ok(),
+                    UnpauseAnyone => process_tx(&mut st, &Tx::one(ix::panic_unpause_permissionless(), &[act::stranger()])).ok(),
+                    Propagate => process_tx(&mut st, &Tx::one(ix::propagate_fee_state(e.w.group), &[act::stranger()])).ok(),
+                    Wait(dt) => {
+                        st.advance(dt);
+                        refresh_oracles(&mut st, &e.w);
+                        elapsed += dt;
+                        true
+                    }
+                };
+            }
+            if ok {
+                built.push((name, st, elapsed, from, until, probes));
+            } else {
+                *classes.entry(format!("scenario_unbuildable:{name}")).or_insert(0) += 1;
+            }
         }
-        // an extended pause: paused at T, extended at T + 600 (in force until T + 3600), propagated then
-        let mut extended = s0.clone();
-        let mut ext_ok = process_tx(&mut extended, &Tx::one(ix::panic_pause(fa), &[fa])).ok();
-        extended.advance(600);
-        refresh_oracles(&mut extended, &e.w);
-        ext_ok &= process_tx(&mut extended, &Tx::one(ix::panic_pause(fa), &[fa])).ok();
-        ext_ok &= process_tx(&mut extended, &Tx::one(ix::propagate_fee_state(e.w.group), &[act::stranger()])).ok();
-        // (scenario store, seconds already elapsed since T in it, length of the pause, probe offsets from T)
-        let mut scenarios: Vec<(&str, &Store, i64, i64, Vec<i64>)> = vec![("single", &paused, 0, 1800, vec![1, 1799, 1800, 1801])];
-        if ext_ok {
-            scenarios.push(("extended", &extended, 600, 3600, vec![601, 1800, 2400, 3599, 3600, 3601]));
-        }
-        for (scn, base_store, elapsed, length, dts) in scenarios {
+        let scenarios: Vec<(&str, &Store, i64, i64, i64, Vec<i64>)> = built.iter().map(|(n, st, el, f, u, p)| (*n, st, *el, *f, *u, p.clone())).collect();
+        for (scn, base_store, elapsed, from, length, dts) in scenarios {
         for dt in dts {
             for repropagate in [false, true] {
                 if repropagate && dt < length {
@@ -265,11 +338,12 @@ pub fn run(_tier: Tier) -> Outcome {
                 let (ok, code, what_moved) = run_at(&s1);
                 let (ok_twin, _, _) = run_at(&twin);
                 cells += 2;
-                let in_force = dt < length;
+                let in_force = dt >= from && dt < length;
                 let rep = json!({"model": "C14B", "golden": g.name, "scenario": scn, "dt": dt, "repropagate": repropagate});
                 if in_force {
                     let moved = what_moved.is_some();
                     *classes.entry(format!("pause_in_force:{}:{}", if ok { "ok" } else { "refused" }, if ok && moved { "MOVED" } else { "nothing_moved" })).or_insert(0) += 1;
+                    *classes.entry(format!("scenario:{scn}:in_force:{}", if ok { "ok" } else { "refused" })).or_insert(0) += 1;
                     if ok && moved {
                         o.found.push(Found {
                             clause: "C14.pause_blocks_fund_and_position_changes".into(),
@@ -280,6 +354,7 @@ pub fn run(_tier: Tier) -> Outcome {
                     }
                 } else {
                     *classes.entry(format!("pause_expired:{}:twin_{}", if ok { "ok" } else { "refused" }, if ok_twin { "ok" } else { "refused" })).or_insert(0) += 1;
+                    *classes.entry(format!("scenario:{scn}:not_in_force:{}", if ok { "ok" } else { "refused" })).or_insert(0) += 1;
                     if ok_twin && !ok {
                         o.found.push(Found {
                             clause: "C14.expired_pause_does_not_block".into(),
@@ -299,6 +374,11 @@ pub fn run(_tier: Tier) -> Outcome {
     if !classes.keys().any(|k| k.starts_with("pause_in_force:refused")) {
         o.machinery.push("vacuity guard: the pause never refused anything".into());
     }
+    for need in ["scenario:single:in_force:refused", "scenario:extended:in_force:refused", "scenario:second:in_force:refused", "scenario:lifted:not_in_force:ok", "scenario:cleared_by_anyone:not_in_force:ok"] {
+        if !classes.contains_key(need) {
+            o.machinery.push(format!("vacuity guard: class {need} never occurred"));
+        }
+    }
     if samples.is_empty() {
         samples.push(json!({"note": "see outcome classes"}));
     }
@@ -306,7 +386,7 @@ pub fn run(_tier: Tier) -> Outcome {
     o.coverage = json!({
         "evaluations": cells,
         "distinct_nontrivial": refused,
-        "rule": "(A) every financial instruction (deposit, withdraw, withdraw-all, borrow, repay, repay-all, liquidation with asset and debt bank separately, bankruptcy, Token-2022 deposit, ...) x each of its banks x {Paused, ReduceOnly, KilledByBankruptcy} against the statement's table (refusals and the 'still works' cells); (B) every golden instruction of the program x a propagated protocol pause at +1 s, +1799 s (in force: a success must not move any position or token amount of the group) and +1800 s, +1801 s with and without re-propagation (expired: same verdict as the never-paused twin at the same clock), and the same around an extended pause (paused at T, extended and propagated at T+600, in force until T+3600; probes at +601, +1800, +2400, +3599, +3600, +3601); distinct_nontrivial = refused cells",
+        "rule": "(A) every financial instruction (deposit, withdraw, withdraw-all, borrow, repay, repay-all, liquidation with asset and debt bank separately, bankruptcy, Token-2022 deposit, ...) x each of its banks x {Paused, ReduceOnly, KilledByBankruptcy} against the statement's table (refusals and the 'still works' cells), and for instructions with two banks every pair of non-operational states on both at once; (B) every golden instruction of the program x a propagated protocol pause at +1 s, +1799 s (in force: a success must not move any position or token amount of the group) and +1800 s, +1801 s with and without re-propagation (expired: same verdict as the never-paused twin at the same clock), and the same around an extended pause (paused at T, extended and propagated at T+600, in force until T+3600; probes at +601, +1800, +2400, +3599, +3600, +3601), a pause lifted by the admin and propagated (never in force afterwards), a second pause issued and propagated the second the first ran out (in force for T+1800..T+3600), and a run-out pause cleared by anyone and propagated; the thorough tier probes every scenario at both neighbours of each boundary second and far beyond; distinct_nontrivial = refused cells",
         "golden_calls_not_exercised": not_exercised,
         "exhaustive": true,
         "outcome_classes": classes,
